@@ -31,6 +31,15 @@ func newGen() *value.FunctionGenerator {
 		},
 		Args: 1, IsPure: false,
 	}.SetDescription("x", "identity with a virtual cost of 300us (above the 200us threshold of the switch to parallel execution)"))
+	// the same as a PURE function: a capture-free closure that calls only pure functions is turned into a
+	// constant by the optimizer (another code path than closures created at run time)
+	g.AddStaticFunction("pslow", funcGen.Function[value.Value]{
+		Func: func(st funcGen.Stack[value.Value], cs []value.Value) (value.Value, error) {
+			vsched.ClockAdvance(300)
+			return st.Get(0), nil
+		},
+		Args: 1, IsPure: true,
+	}.SetDescription("x", "pure identity with a virtual cost of 300us"))
 	return g
 }
 
@@ -172,6 +181,24 @@ func enumerate(quick bool, emit func(scenario)) {
 						}
 						emit(scenario{Family: "D:par-terminal-size-fail", Src: app(t.tmpl, app(parStage(par, fail), src)), N: n, W: w})
 						emit(scenario{Family: "D:par-terminal-size-fail", Src: app(t.tmpl, app(parStage(par, fail), app("%s.number((i,v)->i*1000+v%%1000)", src))), N: n, W: w})
+					}
+				}
+			}
+		}
+		// D2: the failing element is a Go panic (integer division by zero) instead of a thrown error, in a
+		// closure created at run time (slow is impure) and in one the optimizer turned into a constant (pslow)
+		for _, par := range []string{"map", "accept"} {
+			for _, fn := range []string{"slow", "pslow"} {
+				for _, fail := range []int{5, 12} {
+					body := fmt.Sprintf("(%s(x)+0*(1000%%%%(x-%d)))", fn, fail)
+					st := "%s.map(x->" + body + "*2+1)"
+					if par == "accept" {
+						st = "%s.accept(x->" + body + "%%3!=1)"
+					}
+					for _, t := range []terminal{terminals[0], terminals[3], terminals[5]} {
+						for _, n := range []int{13, 14} {
+							emit(scenario{Family: "D2:par-terminal-go-panic", Src: app(t.tmpl, app(st, src)), N: n, W: w})
+						}
 					}
 				}
 			}
@@ -511,6 +538,15 @@ func runPlain(ctx *bex.Ctx) {
 			},
 			Args: 1, IsPure: false,
 		}.SetDescription("x", "identity; really sleeps 300us in the parallel variant"))
+		g.AddStaticFunction("pslow", funcGen.Function[value.Value]{
+			Func: func(st funcGen.Stack[value.Value], cs []value.Value) (value.Value, error) {
+				if sleep {
+					time.Sleep(300 * time.Microsecond)
+				}
+				return st.Get(0), nil
+			},
+			Args: 1, IsPure: true,
+		}.SetDescription("x", "pure identity; really sleeps 300us in the parallel variant"))
 		return g
 	}
 	gSeq, gPar := mk(false), mk(true)
@@ -700,7 +736,7 @@ func run(ctx *bex.Ctx) {
 			judge(&st2, rp)
 		}
 	})
-	ctx.SpaceDone("families A (pre x par x post), B (pre x par x terminal), C (par x post x terminal), D (par x terminal x size x failing element), E (merge), F (multiUse), G (nested parallel, thorough), H3 (one evaluated list extended by every worker), I (groups handed across goroutines), F2 (multiUse consumers that stop at once); all interleavings per scenario, W=2 (thorough: 2,3)")
+	ctx.SpaceDone("families A (pre x par x post), B (pre x par x terminal), C (par x post x terminal), D (par x terminal x size x failing element), D2 (the failing element is a Go panic; closures created at run time and closures the optimizer turned into constants), E (merge), F (multiUse), G (nested parallel, thorough), H3 (one evaluated list extended by every worker), I (groups handed across goroutines), F2 (multiUse consumers that stop at once); all interleavings per scenario, W=2 (thorough: 2,3)")
 }
 
 func reportRaces(ctx *bex.Ctx, st *vsched.Stats, repro map[string]any) {
@@ -747,6 +783,15 @@ func replayPlain(repro map[string]any) (string, bool) {
 			},
 			Args: 1, IsPure: false,
 		}.SetDescription("x", "identity; really sleeps 300us in the parallel variant"))
+		g.AddStaticFunction("pslow", funcGen.Function[value.Value]{
+			Func: func(st funcGen.Stack[value.Value], cs []value.Value) (value.Value, error) {
+				if sleep {
+					time.Sleep(300 * time.Microsecond)
+				}
+				return st.Get(0), nil
+			},
+			Args: 1, IsPure: true,
+		}.SetDescription("x", "pure identity; really sleeps 300us in the parallel variant"))
 		return g
 	}
 	src, _ := repro["src"].(string)
@@ -809,7 +854,7 @@ func main() {
 		Assumptions: []string{"sequentially consistent interleavings at synchronisation granularity; races on the value stack are decided exactly by vector clocks over the hooked stack accesses (funcGen.stackStorage.set/get, Stack.ToSlice)",
 			"virtual time: only the host function slow() costs time (300us); time.After fires only when nothing else is enabled; no closure call takes 5s of real time",
 			"runtime.NumCPU is the harness' worker count W; W=1 (the library's own sequential fallback) defines the sequential reference for map/accept; merge and multiUse references are computed from separately forced operands"},
-		QuickBudget: 70e9, ThoroughBudget: 45 * 60e9,
+		QuickBudget: 90e9, ThoroughBudget: 45 * 60e9,
 		Workers: 2, CoopWorkers: 10, RaceWorkers: 4,
 		Run:              run,
 		Replay:           replay,
